@@ -442,6 +442,55 @@ Section Spec.
                      end
       end.
 
+  (* bulk-write: the sequence of its single operations, each one exactly the
+     corresponding single call; `ordered` stops at the first failing item,
+     otherwise every item is attempted *)
+  Definition s_bulk1 (s : sstate) (h : handle) (op : bulk_op) : sstate * (sresult + ekind) :=
+    match op with
+    | BInsert d =>
+        let '(s', r) := s_insert1 s h d in
+        (s', match r with inl x => inl (mkSR [] [x] None) | inr e => inr e end)
+    | BReplace f rp sort upsert => s_replace_or_upsert s h f rp sort upsert
+    | BUpdate f u sort upsert skip limit afs => s_update_or_upsert s h f u sort skip limit upsert afs
+    | BDelete f sort skip limit => s_delete_call s h f sort skip limit
+    end.
+
+  Fixpoint s_bulk (s : sstate) (h : handle) (ops : list bulk_op) (ordered : bool)
+    : sstate * list (sresult + ekind) :=
+    match ops with
+    | [] => (s, [])
+    | op :: t =>
+        match s_bulk1 s h op with
+        | (s1, inl sr) => let '(s2, rs) := s_bulk s1 h t ordered in (s2, inl sr :: rs)
+        | (s1, inr e) =>
+            if ordered then (s1, [inr e])
+            else let '(s2, rs) := s_bulk s1 h t ordered in (s2, inr e :: rs)
+        end
+    end.
+
+  (* BulkWriteResult: counts per kind of item, upserted ids and errors by item index *)
+  Fixpoint s_bulk_reply (ops : list bulk_op) (rs : list (sresult + ekind)) (i : Z) (acc : reply) : reply :=
+    match ops, rs, acc with
+    | op :: ops', r :: rs', RBulk a b c d e u errs =>
+        let acc' :=
+          match r with
+          | inr k => RBulk a b c d e u (errs ++ [(i, k)])
+          | inl sr =>
+              match op with
+              | BInsert _ => RBulk (a + len (sr_modified sr)) b c d e u errs
+              | BDelete _ _ _ _ => RBulk a b c (d + len (sr_matched sr)) e u errs
+              | _ =>
+                  match sr_upserted sr with
+                  | Some x => RBulk a (b + len (sr_matched sr)) (c + len (sr_modified sr)) d (e + 1)
+                                    (u ++ [(i, Get x "_id")]) errs
+                  | None => RBulk a (b + len (sr_matched sr)) (c + len (sr_modified sr)) d e u errs
+                  end
+              end
+          end in
+        s_bulk_reply ops' rs' (i + 1) acc'
+    | _, _, _ => acc
+    end.
+
   Definition s_index_spec (df : sdef) : doc :=
     index_spec (d_name df, mkIndex (d_config df) (d_cols df) []).
 
@@ -550,7 +599,13 @@ Section Spec.
     | CDropDb _ db =>
         if negb (valid_handle (db, "") false) || is_local (db, "") then (s, RErr EErr)
         else (mkS (filter (fun kc => negb (drop_matches (db, "") (fst kc))) (ss_colls s)) (ss_oid s), ROk)
-    | _ => (s, RErr EUnmodelled)      (* bulk, sessions, maintenance: not part of the reference *)
+    | CBulk _ h ops ordered =>
+        if existsb (fun op => match op with BReplace _ rp _ _ => first_key_dollar rp | _ => false end) ops
+        then (s, RErr EErr)
+        else if negb (s_valid h) then (s, RErr EErr)
+        else let '(s', rs) := s_bulk s h ops ordered in
+             (s', s_bulk_reply ops rs 0 (RBulk 0 0 0 0 0 [] []))
+    | _ => (s, RErr EUnmodelled)      (* sessions, maintenance: not part of the reference *)
     end.
 
 End Spec.
